@@ -1,0 +1,13 @@
+//go:build verif
+
+package admin
+
+import (
+	"github.com/onosproject/onos-config/pkg/pluginregistry"
+	"github.com/onosproject/onos-config/pkg/store/v2/configuration"
+	"github.com/onosproject/onos-config/pkg/store/v2/transaction"
+)
+
+func NewServerForVerif(transactions transaction.Store, configurations configuration.Store, pluginRegistry pluginregistry.PluginRegistry) *Server {
+	return &Server{transactionsStore: transactions, configurationsStore: configurations, pluginRegistry: pluginRegistry}
+}
